@@ -340,10 +340,14 @@ func streamC29(h *H) {
 	}
 
 	// --- many: more keys than maxKeys; hints
-	nm := h.N(1, 12)
+	nm := h.N(2, 12)
 	for i := 0; i < nm; i++ {
 		rp := c29Init("p0")
-		nk := 19 + h.Intn(5) // 20..24 keys in total after the loop
+		// total number of keys: exactly maxKeys, maxKeys+1 (boundary, always), then 20..24
+		nk := 19 + i
+		if i >= 2 {
+			nk = 19 + h.Intn(5)
+		}
 		be := LoadBackend(rp.st)
 		cli := NewCLI(be)
 		cli.Password = "p0"
@@ -373,10 +377,13 @@ func streamC29(h *H) {
 		}
 		var pws []string
 		hints := map[string]string{}
+		// every key's password without hint; a few with a hint (naming the key or another one)
+		for _, id := range ids {
+			pws = append(pws, rp.truth[id].pw)
+		}
 		for j := 0; j < 6; j++ {
 			id := ids[h.Intn(len(ids))]
 			pw := rp.truth[id].pw
-			pws = append(pws, pw)
 			if h.Bool() {
 				hints[pw] = id[:12]
 			} else {
